@@ -103,9 +103,12 @@ def make_recorder(inner, crash_at=None):
             self.values = []
             self.crash_at = crash_at
             self.keep_values = False
+            self.on_request = None  # optional online monitor: called with (index, ta, tb) before forwarding
 
         def __call__(self, ta, tb=None, return_U=False, return_A=False):
             k = len(self.trace)
+            if self.on_request is not None:
+                self.on_request(k, float(ta), None if tb is None else float(tb))
             if self.crash_at is not None and k == self.crash_at:
                 self.crash_at = None
                 raise SimCrash(f"brownian request {k}")
